@@ -24,6 +24,7 @@ import radical.pilot.constants as rpc
 import radical.pilot.agent.executing.base  as ebase
 import radical.pilot.agent.executing.popen as epopen
 import radical.pilot.agent.executing.noop  as enoop
+import radical.pilot.agent.launch_method.base as lm_base
 
 _CTX = {'sim': None}
 
@@ -188,6 +189,7 @@ class FakeProc(object):
             self.sim.baton.yield_point('blocked:proc')
         if ct:
             ct.blocked = None
+        self.reaped = True           # collected: the pid (process group) is gone from now on
         return self.returncode
 
 
@@ -222,6 +224,42 @@ class _RU(object):
         return getattr(ru, name)
 
 
+class _KillOS(object):
+    @property
+    def sim(self):
+        return _CTX['sim']
+
+    def killpg(self, pid, sig):
+        if self.sim is None:
+            return os.killpg(pid, sig)
+        self.sim.baton.yield_point('kill')
+        for p in self.sim.procs:
+            if p.pid == pid:
+                if getattr(p, 'reaped', False):
+                    raise ProcessLookupError(3, 'No such process')
+                if p.returncode is None:
+                    p.killed = True
+                    p.returncode = -int(sig)
+                return
+        raise ProcessLookupError(3, 'No such process')
+
+    def __getattr__(self, name):
+        return getattr(os, name)
+
+
+class _KillTime(object):
+    def sleep(self, dt):
+        sim = _CTX['sim']
+        if sim is None:
+            import time as _t
+            return _t.sleep(dt)
+        sim.baton.yield_point('sleep')
+
+    def __getattr__(self, name):
+        import time as _t
+        return getattr(_t, name)
+
+
 class FakeLauncher(object):
     name = 'FAKE'
 
@@ -248,12 +286,13 @@ class FakeLauncher(object):
         return True, ''
 
     def cancel_task(self, task, pid):
-        self.sim.baton.yield_point('kill')
+        # the real LaunchMethod.cancel_task (killpg TERM, sleep, killpg KILL) over a fake `os` /
+        # `time`: a process which is still running is killed, one which ended but was not
+        # collected yet (zombie) accepts the signal, one which was already collected (wait()ed)
+        # is gone: killpg raises ProcessLookupError
         self.cancelled.append(task['uid'])
-        for p in self.sim.procs:
-            if p.pid == pid and p.returncode is None:
-                p.killed = True
-                p.returncode = -15
+        self._log = boot.LOG
+        lm_base.LaunchMethod.cancel_task(self, task, pid)
 
 
 class FakeRM(object):
@@ -291,6 +330,8 @@ epopen.queue = _Queue()
 epopen.ru    = _RU()
 enoop.mt     = _MT()
 enoop.time   = _Time()
+lm_base.os   = _KillOS()      # LaunchMethod.cancel_task: killpg on the fake process table
+lm_base.time = _KillTime()
 
 
 # ------------------------------------------------------------------------------
@@ -386,6 +427,7 @@ class ExecSim(object):
         self.accepted = set()  # uids handed to work()
         self.cancel_req = set()
         self.cancel_of  = {}     # cancel thread name -> uids
+        self.started_clean = set()   # uids whose start-up report was handled before any time passed
         self.must_cancel = {}    # uid -> phase at which the request was completely handled
         self.ticked   = 0.0
         self._log_pos = 0
@@ -548,6 +590,26 @@ class ExecSim(object):
         ct.blocked = None
         self.dyn.append(name)
         self.cancel_of[name] = uids
+
+    def startup_done(self, k):
+        """rank 0 of a running task reports `task_startup_done` (the exec script does that through
+        the control channel); the executor's handler runs to completion at once.  If no virtual
+        time has passed since the start of the case, the report is clearly in time."""
+        live = [p for p in self.procs if p.returncode is None]
+        if not live:
+            return
+        uid  = live[k % len(live)].uid
+        msg  = {'cmd': 'task_startup_done', 'arg': {'uid': uid}}
+        name = 'startup.%d' % len(self.dyn)
+        ct = self.baton.spawn(name, lambda: self.comp._control_cb(rpc.CONTROL_PUBSUB, msg))
+        ct.blocked = None
+        self.dyn.append(name)
+        for _ in range(200):
+            if ct.done:
+                break
+            self._resume(name)
+        if ct.done and ct.exc is None and self.ticked == 0:
+            self.started_clean.add(uid)
 
     def may_exit(self, p):
         return not (self.hold_exit and p.spawner is not None and not p.spawner.done)
@@ -741,10 +803,13 @@ class ExecSim(object):
                         self.bad('C07', 'outcome_wrong:FAILED', '%s: exit %s task exit_code %s'
                                  % (uid, getattr(proc, 'returncode', None), t.get('exit_code')))
                 elif ts == rps.CANCELED:
-                    allowed = uid in self.cancel_req or \
-                        ((spec.get('timeout') or spec.get('startup_timeout')) and self.ticked > 0)
+                    limit = spec.get('timeout') if uid in self.started_clean else \
+                        (spec.get('timeout') or spec.get('startup_timeout'))
+                    allowed = uid in self.cancel_req or (limit and self.ticked > 0)
                     if not allowed:
                         self.bad('C07', 'outcome_wrong:CANCELED_unrequested', uid)
+                        if uid in self.started_clean:
+                            self.bad('C05', 'canceled_by_startup_timeout_after_startup_was_reported', uid)
                 else:
                     self.bad('C07', 'outcome_missing', '%s: target_state %s' % (uid, ts))
             if e['failed'] and not e['pushed']:
@@ -779,7 +844,9 @@ class ExecSim(object):
             return 'launch_fault_%s' % spec['fault']
         p = self.proc_of.get(uid)
         c = uid in self.cancel_req
-        to = bool(spec.get('timeout') or spec.get('startup_timeout')) and self.ticked > 0
+        limit = spec.get('timeout') if uid in self.started_clean else \
+            (spec.get('timeout') or spec.get('startup_timeout'))
+        to = bool(limit) and self.ticked > 0
         if c and to:
             return 'cancel+timeout'
         if c:
@@ -813,6 +880,8 @@ def run_schedule(case):
                 sim.exit_proc(int(mv[1]))
             elif k == 'cancel':
                 sim.cancel([int(x) for x in mv[1]])
+            elif k == 'startup':
+                sim.startup_done(int(mv[1]))
             elif k == 'tick':
                 sim.tick(float(mv[1]))
             if sim.steps > sim.MAX_STEPS:
